@@ -8,7 +8,7 @@ import LlgoVerif.Model.Layout
     `pf <target> <term>`        → `<padFree t> <padFree (toRaw t)>`
     `tg <target>`               → the target record
 
-    target ∈ amd64 | arm64 | 386 | arm | wasm | custom:<ptr>,<gc 0/1>,<word>,<maxalign>,<i8>,<i16>,<i32>,<i64>,<f32>,<f64>,<ptr>,<cmax>
+    target ∈ amd64 | arm64 | 386 | arm | wasm | custom:<ptr>,<gc 0/1>,<word>,<maxalign>,<i8>,<i16>,<i32>,<i64>,<f32>,<f64>,<ptr>
     term: b i8 i16 i32 i64 u8 u16 u32 u64 i u up f32 f64 c64 c128 str usp | F | F1 | E | I | P(t) S(t) C(t) N(t)
           | A(n,t) | M(k,v) | T(t,…)                   (same grammar as harness/c08/main.go)
     <offs> = `-` non-struct, `.` struct without fields, else o1:o2:… -/
@@ -81,15 +81,18 @@ def parseTerm (s : String) : Option GoType :=
   | some (t, []) => some t
   | _ => none
 
+/-- target record and the psABI's largest scalar alignment for the C layout -/
 def parseTarget (s : String) : Option Target :=
   match s with
   | "amd64" => some amd64 | "arm64" => some arm64 | "386" => some i386 | "arm" => some arm | "wasm" => some wasm
   | _ =>
     if s.startsWith "custom:" then
       match ((s.drop 7).toString.splitOn ",").mapM String.toNat? with
-      | some [p, gc, w, m, a8, a16, a32, a64, f32, f64, ap, cm] => some ⟨p, gc != 0, w, m, a8, a16, a32, a64, f32, f64, ap, cm⟩
+      | some [p, gc, w, m, a8, a16, a32, a64, f32, f64, ap] => some ⟨p, gc != 0, w, m, a8, a16, a32, a64, f32, f64, ap⟩
       | _ => none
     else none
+
+def cmaxOf (s : String) : Nat := if s = "386" then 4 else 8
 
 def offsStr (isS : Bool) (o : List Nat) : String :=
   if !isS then "-" else if o.isEmpty then "." else ":".intercalate (o.map toString)
@@ -102,7 +105,7 @@ def three (tg : Target) (t : GoType) : String :=
   s!"a={layStr s (goSizes tg t)} b={layStr s (llvmLayout tg t)} c={c.size},{c.align},{abiFieldAlign tg (toRaw t)},{offsStr s c.offsets}"
 
 def showTarget (t : Target) : String :=
-  s!"ptr={t.ptrSize} gc={t.gcStyle} word={t.wordSize} maxalign={t.maxAlign} i8={t.llI8} i16={t.llI16} i32={t.llI32} i64={t.llI64} f32={t.llF32} f64={t.llF64} p={t.llPtr} cmax={t.cMaxAlign}"
+  s!"ptr={t.ptrSize} gc={t.gcStyle} word={t.wordSize} maxalign={t.maxAlign} i8={t.llI8} i16={t.llI16} i32={t.llI32} i64={t.llI64} f32={t.llF32} f64={t.llF64} p={t.llPtr} wf={wfTarget t} abiok={abiOK t}"
 
 def handle (line : String) : String :=
   match fields line with
@@ -118,7 +121,7 @@ def handle (line : String) : String :=
     | _, _, _ => "bad-op"
   | ["cl", tgs, ts] =>
     match parseTarget tgs, parseTerm ts with
-    | some tg, some t => if isC t then "c=" ++ layStr (isStruct t) (cLayout tg t) else "notc"
+    | some tg, some t => if isC t then "c=" ++ layStr (isStruct t) (cLayout tg (cmaxOf tgs) t) else "notc"
     | _, _ => "bad-op"
   | ["pf", tgs, ts] =>
     match parseTarget tgs, parseTerm ts with
